@@ -247,7 +247,7 @@ def stream(r, n_random, thorough=False):
         t = tokenize(s); bounds = [0]; i = 0
         for x in t: i += 1 if x[0] == 'op' else (len(push(x[2]))); bounds.append(i)
         for b in bounds:
-            for nop in [0x61, 0xb0, 0xb1, 0xb9, 0xba, 0x00, 0x4f]: S.append(('nop:%s' % tag, s[:b] + bytes([nop]) + s[b:]))
+            for nop in [0x61, 0xb0, 0xb1, 0xb2, 0xb3, 0xb4, 0xb5, 0xb6, 0xb7, 0xb8, 0xb9, 0xba, 0x00, 0x4f]: S.append(('nop:%s' % tag, s[:b] + bytes([nop]) + s[b:]))
     # OP_RETURN payload grid: lengths x push forms x utf-8 validity
     for ln in [0, 1, 5, 40, 75, 76, 80, 200, 255, 256, 300, 1000, 3000]:
         for form in ['direct', 'pd1', 'pd2', 'pd4']:
